@@ -201,6 +201,9 @@ func init() {
 		ex.hctx["eagerTimers"] = on
 		return nil
 	}
+	prims["vSameJSON"] = func(ex *Exec, fr *Frame, site ssa.Instruction, a []Value) Value {
+		return ex.jsonSame(ex.nodeOfIface(fr, site, a[0]), ex.nodeOfIface(fr, site, a[1]), site)
+	}
 	prims["vNativeSkip"] = func(ex *Exec, fr *Frame, site ssa.Instruction, a []Value) Value {
 		// the native run cannot observe what this harness observes (e.g. arguments of time.After)
 		ex.nondetEnv++
